@@ -265,7 +265,7 @@ class C07(Property):
     props_module = 'ChemModel.Props.C07'
     build_modules = ('ChemModel.Model.EqSys', 'ChemModel.Basic.Proto')
     driver = 'ChemModel/Driver/C07.lean'
-    n_quick, n_thorough = 400, 6000
+    n_quick, n_thorough = 1200, 12000
     float_tol = 1e-9
     rule = ('EqSystems assembled from 10 aqueous/gas pools of formula-defined species (1-3 pools merged, spectators, scaled/reversed/'
             'dependent reactions) and abstract systems (random primitive compositions, nested complexes, inactive reactants); '
